@@ -90,12 +90,16 @@ WithinBudget(o) ==
         /\ i + o.mr - 1 <= Len(o.bodies)
         /\ \A j \in i..(i + o.mr - 1) : NoProg(o, j)
 
-\* the budget also bounds the client: after mr + 1 bodies IN A ROW that brought no new id across it has
-\* given up ("retries exhausted without progress": it makes progress or gives up, it never retries for ever)
+\* the budget also bounds the client: after mr + 1 bodies IN A ROW that brought nothing new across it has
+\* given up ("retries exhausted without progress": it makes progress or gives up, it never retries for ever).
+\* Read leniently, like the cursors: an event whose content was complete when a body ended cleanly (d) may have
+\* counted as progress.
+Fruitless(o, i) == /\ o.bodies[i].knd # "none"
+                   /\ o.bodies[i].d = (IF i = 1 THEN None ELSE o.bodies[i - 1].c)
 BoundedRetries(o) ==
   ~\E i \in 1..Len(o.bodies) :
         /\ i + o.mr + 1 <= Len(o.bodies)
-        /\ \A j \in i..(i + o.mr + 1) : NoProg(o, j)
+        /\ \A j \in i..(i + o.mr + 1) : Fruitless(o, j)
 
 \* a sequence of delivered indices is fine: only messages of the stream, each at most once,
 \* in stream order; without gaps whenever the client had the means to resume
